@@ -8,7 +8,7 @@ from ..oracles.docmodel import scan, split_lines
 MANIFEST = dict(
     engines="A",
     technique="symbolic execution (CrossHair+z3) of the list interpretations (whitespace_split_tokenizer, comma_split_tokenizer, Deb822ParsedTokenList append/remove/replace, ValueReference value/remove, _update_field) over a layout grammar: the separator layout, the operation, the operand index are symbolic integers and one word of the list is a symbolic string; reads are compared with an independent splitting oracle and writes with the edited list plus byte-identity of the neighbouring fields",
-    text="Bounded model checking: for list fields of 1-3 words in every layout of a catalogue (single/double blanks, tab and space continuation lines, comment lines between lines, commas with/without blanks, comma at line end or line start, trailing separator, leading blank) inside a three-field paragraph, with one word symbolic (1-2 arbitrary non-separator characters): the view yields exactly the oracle's values; open-and-close leaves the document byte-identical; after append / remove / replace / reference assignment / reference removal (one operation, thorough: two) the field re-reads as exactly the edited list, the other fields are byte-identical, and the dump parses without error tokens.",
+    text="Bounded model checking: for list fields of 1-3 words in every layout of a catalogue (single/double blanks, tab and space continuation lines, comment lines between lines, commas with/without blanks, comma at line end or line start, trailing separator, leading blank) inside a three-field paragraph, with one word symbolic (1-2 arbitrary non-separator characters): the view yields exactly the oracle's values; open-and-close leaves the document byte-identical; after append / remove / replace / reference assignment / reference removal (one operation, thorough: two) the field re-reads as exactly the edited list, the other fields are byte-identical, and the dump parses without error tokens. Comma lists also with values of several words, values spanning lines and comment lines inside a value; every operation also on a view from which nothing was read before the edit.",
     note="Layouts are concrete with one symbolic word; operation and operand are symbolic indices. Outside: the reformatting modes of formatter.py (only 'no reformatting' is in the property), the Uploaders interpretation, removing the last remaining value.",
 )
 
